@@ -477,9 +477,11 @@ func (ex *Exec) designatorHeaps(env *SpecEnv, d *SExpr) []heapRef {
 			}
 			return out
 		}
-		// evaluate the container object
-		base := ex.evalSpec(env, d.Args[0])
-		loc := ex.fieldLocOf(env, base, d.Name)
+		// evaluate the place
+		loc, ok := ex.evalPlace(env, d)
+		if !ok {
+			unsupported("modifies designator is not an addressable place: %s", d)
+		}
 		for _, l := range Layout(loc.T) {
 			switch loc.Kind {
 			case locField:
